@@ -179,11 +179,34 @@ MssValues == [kind : {"header", "na", "ls", "protocol", "protocols"}, n : {0, 1,
 IdentifyValues == [protocols : {0, 1, 3}, listen : {0, 1, 2}, observed : BOOLEAN]
 
 -----------------------------------------------------------------------------
+(* F. value domain: a decoded value is handed to consumers that apply the     *)
+(* library's total conversions to it without further checks (a peer id is     *)
+(* turned into a /p2p multiaddress component, a Kademlia peer's addresses get *)
+(* the peer id appended and go into the routing table).  Rule: every value a  *)
+(* decoder returns lies in the domain of every such conversion.               *)
+(* Class of a peer id carried inside a message: [code, dlen, where]           *)
+(*   code   identity | sha2_256 | other      dlen  declared = actual digest   *)
+(*   length   where  which field carries it                                   *)
+PidDLens == {0, 1, 32, 36, 42, 43, 44, 63, 64, 65, 100}
+KadPeerIdClasses == [code : {"identity", "sha2_256", "other"}, dlen : PidDLens,
+                     where : {"closer_peer", "provider_peer", "record_publisher", "bare"}]
+MaxInlineKey == 42
+\* domain of `From<PeerId> for multiaddr::PeerId` (and of the reference peer id type)
+PeerIdUsable(c) == c.dlen <= 64 /\ (c.code = "sha2_256" \/ (c.code = "identity" /\ c.dlen <= MaxInlineKey))
+\* Impl: Multihash::<64>::from_bytes + PeerId::from_multihash
+ImplAcceptsPeerId(c) == c.dlen <= 64 /\ (c.code = "sha2_256" \/ (c.code = "identity" /\ c.dlen <= MaxInlineKey))
+\* a peer / publisher that is not accepted is dropped (the record: the message is refused)
+KadPeerIdVerdict(c) == IF ImplAcceptsPeerId(c) THEN "usable" ELSE "dropped"
+\* the rule on the transcription: whatever is accepted is usable
+AcceptedValuesUsable(c) == ImplAcceptsPeerId(c) => PeerIdUsable(c)
+
+-----------------------------------------------------------------------------
 (* Prop layer                                                                *)
 AllocSlack == 65536              \* the "+ constant" of the allocation bound
 \* any decoder observation: out is never a panic / hang / abort; the largest single
 \* allocation made while decoding stays within the configured limit plus a constant
-BadOutcomes == {"panic", "hang", "abort"}
+\* `unusable`: a consumer conversion of the returned value panicked or did not round-trip
+BadOutcomes == {"panic", "hang", "abort", "unusable"}
 PropDecode(out, alloc, limit) == out \notin BadOutcomes /\ alloc <= limit + AllocSlack
 \* round trip of a library-encoded value
 PropRoundTrip(out, same) == out = "ok" /\ same
